@@ -1056,6 +1056,67 @@ func upLockedRead(c *upCase) Verdict {
 	return pass()
 }
 
+// upWideFault: an upload whose first file makes the server send many INSERT batches (c.Recs
+// records of ~250 labels each: one batch per record) and whose LAST part then fails (a file
+// without benchmark lines, an abort field, an unexpected field).  All-or-nothing does not depend
+// on how much was already sent to the database; without the fault everything is queryable.
+func upWideFault(c *upCase) Verdict {
+	for _, kind := range []string{"none", "empty-file", "abort-field", "unexpected-field"} {
+		a, err := upNewApp(false, false)
+		if err != nil {
+			return fail("harness", "%v", err)
+		}
+		early := upBuildBody(1, 2, 0, 0, 991+c.ID)
+		if code, resp := a.post(early.ctype, bytes.NewReader(early.data)); code != 200 {
+			a.close()
+			return fail("harness", "earlier upload failed: %d %s", code, resp)
+		}
+		before, _ := a.records()
+		var buf bytes.Buffer
+		mw := multipart.NewWriter(&buf)
+		fw, _ := mw.CreateFormFile("file", "wide.txt")
+		for k := 0; k < 250; k++ {
+			fmt.Fprintf(fw, "k%03d: v%d\n", k, k%7)
+		}
+		for r := 0; r < c.Recs; r++ {
+			fmt.Fprintf(fw, "BenchmarkWide%04d 1 %d ns/op\n", r, r+1)
+		}
+		switch kind {
+		case "empty-file":
+			fw2, _ := mw.CreateFormFile("file", "empty.txt")
+			fmt.Fprintf(fw2, "goos: linux\n")
+		case "abort-field":
+			mw.WriteField("abort", "1")
+		case "unexpected-field":
+			mw.WriteField("surprise", "1")
+		}
+		if kind == "none" {
+			mw.WriteField("commit", "1")
+		}
+		mw.Close()
+		code, resp := a.post(mw.FormDataContentType(), bytes.NewReader(buf.Bytes()))
+		after, err := a.records()
+		listed, err2 := a.listed()
+		a.close()
+		if err != nil || err2 != nil {
+			return fail("harness", "query after the upload: %v %v", err, err2)
+		}
+		if kind == "none" {
+			if code != 200 || len(after) != len(before)+c.Recs {
+				return fail("wide-upload-incomplete", "upload of %d records with 250 labels each: HTTP %d %q, %d records queryable afterwards (had %d before)", c.Recs, code, strings.TrimSpace(resp), len(after), len(before))
+			}
+			continue
+		}
+		if code == 200 {
+			return fail("status", "upload of %d wide records ending in %s: HTTP 200 %q, want failure", c.Recs, kind, strings.TrimSpace(resp))
+		}
+		if len(after) != len(before) || len(listed) != 1 {
+			return fail("partial-upload-visible-after-late-fault", "upload of %d records with 250 labels each, then %s: HTTP %d, but %d records of it can be queried and %d uploads are listed", c.Recs, kind, code, len(after)-len(before), len(listed))
+		}
+	}
+	return pass()
+}
+
 func famUpload(mode string, args []string) error {
 	if mode == "inflight" {
 		return upInflight(args)
@@ -1082,6 +1143,8 @@ func famUpload(mode string, args []string) error {
 			return upReplayFault(&c)
 		case "lockedread":
 			return upLockedRead(&c)
+		case "widefault":
+			return upWideFault(&c)
 		case "ids":
 			evs, v := upReplayIDs(&c)
 			if evOut != nil {
